@@ -25,6 +25,8 @@ CONSTANTS MaxMentions,       \* properties of the root
 \*   item    they are the properties of an object that is the only item of the array "w" of the root
 \* (allOf and additionalProperties annotate the root object in every case.)
 Places == <<"flat", "nested", "atkey", "item">>
+\* how the `|` of a choice is written: blanks on both sides, on neither, on one (the names are the same)
+Pipes == <<" | ", "|", " |", "| ">>
 
 Names == {"a", "b", "c", "d"}
 StringNames == {"a", "c", "d"}
@@ -61,16 +63,17 @@ VARIABLES root,        \* sequence of root mentions
           registered,  \* subset of Names
           unused,      \* is @z registered too?
           place,       \* where the mentioning properties stand (an element of Places)
+          pipe,        \* how the `|` of choices is written (an element of Pipes)
           stage
-vars == <<root, variant, registered, unused, place, stage>>
+vars == <<root, variant, registered, unused, place, pipe, stage>>
 
-Init == root = <<>> /\ variant = [n \in Names |-> <<>>] /\ registered = {} /\ unused = FALSE /\ place = "flat" /\ stage = "root"
+Init == root = <<>> /\ variant = [n \in Names |-> <<>>] /\ registered = {} /\ unused = FALSE /\ place = "flat" /\ pipe = " | " /\ stage = "root"
 
 AddMention(m) == /\ stage = "root" /\ Len(root) < MaxMentions
                  /\ (m.pos = "allOf" => \A i \in 1..Len(root) : root[i].pos # "allOf")        \* one object, one allOf list each
                  /\ (m.pos = "addprops" => \A i \in 1..Len(root) : root[i].pos # "addprops")  \* and one additionalProperties rule
                  /\ (m.pos = "key" => \A i \in 1..Len(root) : root[i].pos # "key" \/ root[i].ns # m.ns)  \* no duplicate shortcut key
-                 /\ root' = Append(root, m) /\ UNCHANGED <<variant, registered, unused, place, stage>>
+                 /\ root' = Append(root, m) /\ UNCHANGED <<variant, registered, unused, place, pipe, stage>>
 ChooseVariants(f) == /\ stage = "root" /\ root # <<>>
                      /\ f \in [Names -> UNION {TypeVariants[n] : n \in Names}]
                      /\ \A n \in Names : f[n] \in TypeVariants[n]
@@ -85,10 +88,11 @@ ChooseVariants(f) == /\ stage = "root" /\ root # <<>>
                      \* inheriting from @b must not meet a different additionalProperties setting (that is C07's refusal)
                      /\ (f["b"] = <<"ap-a">> /\ (\E i \in 1..Len(root) : root[i].pos = "allOf"))
                            => \A i \in 1..Len(root) : root[i].pos = "addprops" => root[i].ns = <<"a">>
-                     /\ variant' = f /\ stage' = "register" /\ UNCHANGED <<root, registered, unused, place>>
+                     /\ variant' = f /\ stage' = "register" /\ UNCHANGED <<root, registered, unused, place, pipe>>
 ShapeNumber(S, z) == Cardinality(S) + Len(root) + (IF z THEN 1 ELSE 0) + Cardinality({n \in Names : variant[n] # <<>>})
 Register(S, z, pl) == /\ stage = "register"
                       /\ (Rotate => pl = Places[(ShapeNumber(S, z) % Len(Places)) + 1])
+                      /\ pipe' = Pipes[((ShapeNumber(S, z) \div Len(Places)) % Len(Pipes)) + 1]
                       /\ registered' = S /\ unused' = z /\ place' = pl /\ stage' = "done" /\ UNCHANGED <<root, variant>>
 Next == \/ \E m \in RootMentions : AddMention(m)
         \/ \E f \in [Names -> {<<>>, <<"a">>, <<"c">>, <<"ap-a">>, <<"ref-a">>, <<"ref-c">>}] : ChooseVariants(f)
@@ -111,6 +115,6 @@ UsedIsReached == stage = "done" => Used \subseteq Reach
 MissingOnlyIfWithheld == stage = "done" => (Missing = {} <=> Reach \subseteq registered)
 \* registering the unused type changes neither Used nor Missing (they do not mention it)
 Emit == (stage = "done" /\ Hygienic) =>
-          PrintT(ToJson([root |-> root, variant |-> variant, registered |-> registered, unused |-> unused, place |-> place,
+          PrintT(ToJson([root |-> root, variant |-> variant, registered |-> registered, unused |-> unused, place |-> place, pipe |-> pipe,
                          used |-> Used, missing |-> Missing]))
 ===============================================================================
